@@ -63,6 +63,11 @@ type accessCheckerRegistry struct {
 	*ociregistry.Funcs
 	check func(repoName string, kind AccessKind) error
 	r     ociregistry.Interface
+
+	// listAll holds whether the Repositories method is always
+	// allowed (each repository in the iteration is still checked),
+	// in which case check is not invoked with the "*" name.
+	listAll bool
 }
 
 // Select returns a wrapper for r that provides only
@@ -71,18 +76,25 @@ type accessCheckerRegistry struct {
 // Requests for disallowed repositories will return ErrNameUnknown
 // errors on read and ErrDenied on write.
 func Select(r ociregistry.Interface, allow func(repoName string) bool) ociregistry.Interface {
-	return AccessChecker(r, func(repoName string, access AccessKind) error {
-		if allow(repoName) {
-			return nil
-		}
-		if access == AccessWrite {
-			return ociregistry.ErrDenied
-		}
-		if access == AccessList && repoName == "*" {
-			return nil
-		}
-		return ociregistry.ErrNameUnknown
-	})
+	return &accessCheckerRegistry{
+		check: func(repoName string, access AccessKind) error {
+			if allow(repoName) {
+				return nil
+			}
+			if access == AccessWrite {
+				return ociregistry.ErrDenied
+			}
+			return ociregistry.ErrNameUnknown
+		},
+		r: r,
+		// Listing the repositories is always allowed: the
+		// disallowed ones are omitted from the iteration.
+		// Note that this is not decided by the check function
+		// because it cannot tell the "*" that stands for
+		// the Repositories method from a repository that is
+		// itself named "*" (as passed to Tags or Referrers).
+		listAll: true,
+	}
 }
 
 func (r *accessCheckerRegistry) GetBlob(ctx context.Context, repo string, digest ociregistry.Digest) (ociregistry.BlobReader, error) {
@@ -194,8 +206,10 @@ func (r *accessCheckerRegistry) DeleteTag(ctx context.Context, repo string, name
 }
 
 func (r *accessCheckerRegistry) Repositories(ctx context.Context, startAfter string) ociregistry.Seq[string] {
-	if err := r.check("*", AccessList); err != nil {
-		return ociregistry.ErrorSeq[string](err)
+	if !r.listAll {
+		if err := r.check("*", AccessList); err != nil {
+			return ociregistry.ErrorSeq[string](err)
+		}
 	}
 	return func(yield func(string, error) bool) {
 		// TODO(go1.23): for name, err := range r.r.Repositories(ctx)
